@@ -380,7 +380,7 @@ func e2eBehaviour(c *e2eCtx) error {
 		dir := filepath.Join(c.work, fmt.Sprintf("b%04d", i))
 		defer os.RemoveAll(dir)
 		src := filepath.Join(dir, "src")
-		p := proj.Generate(r, proj.Opts{InScope: true, RootMain: r.Intn(3) == 0, Mains: 1 + r.Intn(2), Libs: 2 + r.Intn(3), ChangeP: 0.35})
+		p := proj.Generate(r, proj.Opts{NoSameBase: true, InScope: true, RootMain: r.Intn(3) == 0, Mains: 1 + r.Intn(2), Libs: 2 + r.Intn(3), ChangeP: 0.35})
 		ending := behEnding(i % 3)
 		code := 1 + r.Intn(100)
 		raceOn := (i/8)%2 == 0
